@@ -51,6 +51,13 @@ class C17(Prop):
                     mv = sorted(keys)[-1]
                 n_cls += 1
                 yield {"op": "general", "args": {"spec": spec, "main_variant": mv, "cls": cls}}
+                # the same object written BEFORE with other main variants (also refused ones): "every .treeinfo the library
+                # writes" includes the second and third write of one object; nothing of an earlier call may be remembered
+                if len(keys) >= 2 and rnd % 2 == 0:
+                    others = [k for k in sorted(keys, reverse=True) if k != mv] + ["Nope"]
+                    hist = [others[(rnd + ci) % len(others)]] + ([None] if (rnd + ci) % 3 == 0 else [])
+                    n_cls += 1
+                    yield {"op": "general", "args": {"spec": spec, "main_variant": mv if rnd % 4 else None, "cls": cls, "history": hist}}
         # every architecture class (src, nosrc, noarch, binary) x every presence combination of packages / repository /
         # source_packages / source_repository on the main variant: the fallback of packagedir / repository is for `src` only
         for i in range(128 if tier == "quick" else 1280):
@@ -75,6 +82,9 @@ class C17(Prop):
             else:
                 mv = rng.choice(["Nope", "", "Server-missing"])
             yield {"op": "general", "args": {"spec": spec, "main_variant": mv}}
+            if len(keys) >= 2 and i % 3 == 0:
+                hist = [rng.choice(keys + ["Nope"]) for _ in range(rng.randint(1, 3))]
+                yield {"op": "general", "args": {"spec": spec, "main_variant": None if i % 2 == 0 else mv, "history": hist}}
         # the last sentence of the property: the library's no-header (0.0) reader on the compatibility sections of the written text
         for c in self.legacy_cases(rng, tier):
             yield c
@@ -115,6 +125,8 @@ class C17(Prop):
             ti = TF.build(a["spec"])
         except Exception as e:  # noqa
             return {"build": {"err": TF.err_name(e)}}
+        for h in a.get("history") or []:
+            TF.guarded(TF.dumps, ti, h)          # earlier writes of the same object; their outcome is not observed here
         out = {"dump": TF.guarded(TF.dumps, ti, a.get("main_variant"))}
         if "ok" in out["dump"]:
             out["doc"] = TF.guarded(TF.read_ini, out["dump"]["ok"])
@@ -306,6 +318,8 @@ class C17(Prop):
         if case["args"].get("combo") and "ok" in real_out.get("dump", {}):
             dist.setdefault("arch_x_paths_written", {})[case["args"]["combo"]] = dist.setdefault("arch_x_paths_written", {}).get(case["args"]["combo"], 0) + 1
         feats = {"written": "ok" in real_out.get("dump", {}), "refused": "ok" not in real_out.get("dump", {}),
+                 "after_earlier_dumps": bool(case["args"].get("history")),
+                 "no_main_after_other_main": bool(case["args"].get("history")) and mv is None,
                  "main_variant_none": mv is None, "main_variant_key": mv is not None and mv in [v["key"] for v in s["variants"]],
                  "src": s["tree"]["arch"] == "src", "float_ts": isinstance(s["tree"]["build_timestamp"], dict),
                  "tops>=2_no_main": mv is None and len(s["variants"]) >= 2,
